@@ -236,66 +236,88 @@ func c11Index(c *core.Ctx) {
 		c.Violate(rule, "l1infotreesync.(*processor).ProcessBlock#index", als[0].Pos(), "leaf index not assigned")
 		return
 	}
-	bo, ok := idx.Val.(*ssa.BinOp)
-	if !ok || bo.Op != token.ADD {
-		c.Violate(rule, "l1infotreesync.(*processor).ProcessBlock#index", als[0].Pos(), "leaf index is not initial + added: "+idx.String())
-		return
-	}
-	// one operand: the per-block counter (loop phi starting at 0, +1 on the AddLeaf success path); the other: initial index
+	// two written forms: index = initial + per-block counter (counter from 0), or one running counter that starts at the
+	// initial index and is stepped after every stored leaf
 	var counter *ssa.Phi
-	var initial ssa.Value
-	for _, pair := range [][2]ssa.Value{{bo.X, bo.Y}, {bo.Y, bo.X}} {
-		if p, ok := pair[0].(*ssa.Phi); ok {
-			isCounter := false
-			for _, e := range p.Edges {
-				if k, ok := core.ConstInt(e); ok && k == 0 {
-					isCounter = true
+	var initLeaves []phiLeaf
+	isStep := func(v ssa.Value, ctr *ssa.Phi) bool {
+		b, ok := v.(*ssa.BinOp)
+		if !ok || b.Op != token.ADD {
+			return false
+		}
+		k, isC := core.ConstInt(b.Y)
+		if !isC || k != 1 {
+			return false
+		}
+		for _, e := range flattenPhi(b.X) {
+			if e == ssa.Value(ctr) {
+				return true
+			}
+		}
+		return b.X == ssa.Value(ctr)
+	}
+	if bo, ok := idx.Val.(*ssa.BinOp); ok && bo.Op == token.ADD {
+		for _, pair := range [][2]ssa.Value{{bo.X, bo.Y}, {bo.Y, bo.X}} {
+			if p, ok := pair[0].(*ssa.Phi); ok {
+				for _, e := range p.Edges {
+					if k, ok := core.ConstInt(e); ok && k == 0 {
+						counter = p
+						initLeaves = phiLeaves(pair[1])
+					}
 				}
 			}
-			if isCounter {
-				counter, initial = p, pair[1]
+		}
+	} else if p, ok := idx.Val.(*ssa.Phi); ok {
+		counter = p
+		for _, lf := range phiLeaves(p) {
+			if !isStep(lf.val, p) {
+				initLeaves = append(initLeaves, lf)
 			}
 		}
 	}
 	if counter == nil {
-		c.Undecide(rule, "l1infotreesync.(*processor).ProcessBlock#index", als[0].Pos(), "cannot identify the per-block counter in "+idx.String())
+		c.Violate(rule, "l1infotreesync.(*processor).ProcessBlock#index", als[0].Pos(), "leaf index is neither initial + added nor a running counter: "+idx.String())
 		return
 	}
-	// initial = getLastIndex()+1, or 0 on ErrNotFound
-	it := sx.Of(initial)
+	// initial = getLastIndex()+1, or 0 on ErrNotFound (placeholders that only travel with an error are ignored)
+	var gl *ssa.Call
+	core.Instrs(pb, func(i ssa.Instruction) {
+		if core.IsCallTo(i, "(*l1infotreesync.processor).getLastIndex") {
+			gl, _ = i.(*ssa.Call)
+		}
+	})
 	alts := map[string]bool{}
-	for _, a := range it.Alts() {
-		alts[a.String()] = true
+	okZero := gl != nil
+	var nf []core.IfEdge
+	if gl != nil {
+		sb := core.NewSymx().Bind(core.ExtractOf(gl, 1), "ERR")
+		nf = core.TermEdges(pb, sb, func(s string, _ *core.Term) bool { return s == "errors.Is(ERR, db.ErrNotFound)" }, true)
 	}
-	okInit := len(alts) == 2 && alts["const(0)"] && alts["((*l1infotreesync.processor).getLastIndex(p, db.NewTx(ctx, p.db)#0)#0 + const(1))"]
-	c.Decide(okInit, rule, "l1infotreesync.(*processor).ProcessBlock#initial-index", als[0].Pos(), "initial index = last stored index + 1, or 0 when nothing is stored: "+it.String())
-	if phi, ok := initial.(*ssa.Phi); ok {
-		var gl *ssa.Call
-		core.Instrs(pb, func(i ssa.Instruction) {
-			if core.IsCallTo(i, "(*l1infotreesync.processor).getLastIndex") {
-				gl, _ = i.(*ssa.Call)
+	isLeafStore := func(x ssa.Instruction) bool { return x == ssa.Instruction(als[0]) }
+	for _, lf := range initLeaves {
+		if lf.phi != nil && !core.PhiEdgeReaches(lf.phi, lf.idx, isLeafStore) {
+			continue
+		}
+		t := sx.Of(lf.val).String()
+		alts[t] = true
+		if v, isC := core.ConstInt(lf.val); isC && v == 0 {
+			if lf.phi == nil {
+				okZero = false
+				continue
 			}
-		})
-		if gl != nil {
-			errV := core.ExtractOf(gl, 1)
-			sb := core.NewSymx().Bind(errV, "ERR")
-			nf := core.TermEdges(pb, sb, func(s string, _ *core.Term) bool { return s == "errors.Is(ERR, db.ErrNotFound)" }, true)
-			okZero := true
-			for k, e := range phi.Edges {
-				if v, isC := core.ConstInt(e); isC && v == 0 {
-					pred := phi.Block().Preds[k]
-					si := 0
-					for j, sc := range pred.Succs {
-						if sc == phi.Block() {
-							si = j
-						}
-					}
-					okZero = okZero && core.RetCase{Pred: pred, Succ: si}.ReachableOnlyVia(pb, nf)
+			pred := lf.phi.Block().Preds[lf.idx]
+			si := 0
+			for j, sc := range pred.Succs {
+				if sc == lf.phi.Block() {
+					si = j
 				}
 			}
-			c.Decide(okZero && len(nf) > 0, rule, "l1infotreesync.(*processor).ProcessBlock#zero-only-when-empty", gl.Pos(), "index 0 is used only when getLastIndex reported not found (other errors abort)")
+			okZero = okZero && core.RetCase{Pred: pred, Succ: si}.ReachableOnlyVia(pb, nf)
 		}
 	}
+	okInit := len(alts) == 2 && alts["const(0)"] && alts["((*l1infotreesync.processor).getLastIndex(p, db.NewTx(ctx, p.db)#0)#0 + const(1))"]
+	c.Decide(okInit, rule, "l1infotreesync.(*processor).ProcessBlock#initial-index", als[0].Pos(), fmt.Sprintf("initial index = last stored index + 1, or 0 when nothing is stored: %v", alts))
+	c.Decide(okZero && len(nf) > 0, rule, "l1infotreesync.(*processor).ProcessBlock#zero-only-when-empty", als[0].Pos(), "index 0 is used only when getLastIndex reported not found (other errors abort)")
 	// counter increments by one, only after AddLeaf returned nil
 	var add *ssa.Call
 	core.Instrs(pb, func(i ssa.Instruction) {
@@ -306,10 +328,8 @@ func c11Index(c *core.Ctx) {
 	okInc := false
 	var inc *ssa.BinOp
 	core.Instrs(pb, func(i ssa.Instruction) {
-		if b, ok := i.(*ssa.BinOp); ok && b.Op == token.ADD && b.X == ssa.Value(counter) {
-			if k, ok := core.ConstInt(b.Y); ok && k == 1 {
-				inc = b
-			}
+		if b, ok := i.(*ssa.BinOp); ok && isStep(b, counter) {
+			inc = b
 		}
 	})
 	if inc != nil && add != nil {
